@@ -111,10 +111,12 @@ package leanhelix
 //@ modset NEWTERM = interfaces.Config.Storage, termincommittee.TermInCommittee.preparedLocally, ghost:lastVC, ghost:ncommitted, ghost:ppStored, ghost:ppHash, ghost:sentPrepare, ghost:sentPrepareHash, ghost:sentCommit, ghost:sentCommitHash, ghost:proposed, ghost:lastCtxErrNil
 //@ func (*WorkerLoop).onNewConsensusRound
 //@   inv [O17.the-installed-term-is-the-term-of-the-current-height] (lh.filter.consensusMessagesHandler != nil ==> TermHeightOf(dyn(lh.filter.consensusMessagesHandler, *leanhelixterm.LeanHelixTerm)) == lh.state.height)
+//@   inv [O8.the-installed-term-is-wired-to-this-filter] (lh.filter.consensusMessagesHandler != nil ==> TermWired(dyn(lh.filter.consensusMessagesHandler, *leanhelixterm.LeanHelixTerm), lh.filter))
 //@   props C13 C14 C17
 //@   requires lh.state != nil && lh.filter != nil && lh.filter.state == lh.state && lh.filter.futureCache != nil && lh.state.Contexts != nil
 //@   requires [A-NONNIL.the-configured-spi-objects-are-present] lh.config != nil && lh.config.KeyManager != nil && lh.config.BlockUtils != nil && lh.config.Membership != nil && lh.electionTrigger != nil
 //@   requires [A-KM-SIGN] SignsAs(lh.config.KeyManager, lh.config.Membership.MyMemberId())
+//@   requires [built-by-NewWorkerLoop.the-filter-carries-this-node-id] lh.filter.myMemberId == lh.config.Membership.MyMemberId()
 //@   requires lastRoundHeight <= lh.state.height && lastCommitHeight <= lh.state.height && ndelivered >= 0
 //@   inv [filter.cache] forall k int, i int :: has(lh.filter.futureCache, k) && 0 <= i && i < len(lh.filter.futureCache[k]) ==> lh.filter.futureCache[k][i].BlockHeight() == k && lh.filter.futureCache[k][i].InstanceId() == lh.filter.instanceId && lh.filter.futureCache[k][i].SenderMemberId() != lh.filter.myMemberId
 //@   modifies state.State.height, state.State.view, leanhelix.WorkerLoop.leanHelixTerm, M:S_state_HeightView:Int, ghost:lastRoundHeight, ghost:lastCommitHeight, rawmessagesfilter.RawMessageFilter.consensusMessagesHandler, rawmessagesfilter.RawMessageFilter.latestFutureBlockHeight, M:Int:Slice_Iface, ghost:ndelivered, ghost:delivered, leanhelixterm.LeanHelixTerm.termInCommittee, ghost:schedStopped, @NEWTERM
@@ -128,10 +130,12 @@ package leanhelix
 
 //@ func (*WorkerLoop).onCommit
 //@   inv [O17.the-installed-term-is-the-term-of-the-current-height] (lh.filter.consensusMessagesHandler != nil ==> TermHeightOf(dyn(lh.filter.consensusMessagesHandler, *leanhelixterm.LeanHelixTerm)) == lh.state.height)
+//@   inv [O8.the-installed-term-is-wired-to-this-filter] (lh.filter.consensusMessagesHandler != nil ==> TermWired(dyn(lh.filter.consensusMessagesHandler, *leanhelixterm.LeanHelixTerm), lh.filter))
 //@   props C13 C03
 //@   requires lh.state != nil && lh.filter != nil && lh.filter.state == lh.state && lh.filter.futureCache != nil && lh.state.Contexts != nil
 //@   requires [A-NONNIL.the-configured-spi-objects-are-present] lh.config != nil && lh.config.KeyManager != nil && lh.config.BlockUtils != nil && lh.config.Membership != nil && lh.electionTrigger != nil
 //@   requires [A-KM-SIGN] SignsAs(lh.config.KeyManager, lh.config.Membership.MyMemberId())
+//@   requires [built-by-NewWorkerLoop.the-filter-carries-this-node-id] lh.filter.myMemberId == lh.config.Membership.MyMemberId()
 //@   requires lastRoundHeight <= lh.state.height && ndelivered >= 0
 //@   inv [filter.cache] forall k int, i int :: has(lh.filter.futureCache, k) && 0 <= i && i < len(lh.filter.futureCache[k]) ==> lh.filter.futureCache[k][i].BlockHeight() == k && lh.filter.futureCache[k][i].InstanceId() == lh.filter.instanceId && lh.filter.futureCache[k][i].SenderMemberId() != lh.filter.myMemberId
 //@   requires [O13.6.commit-for-the-current-height-only-once] block != nil && block.Height() == lh.state.height && lastCommitHeight < block.Height()
@@ -141,11 +145,13 @@ package leanhelix
 
 //@ func (*WorkerLoop).handleUpdateState
 //@   inv [O17.the-installed-term-is-the-term-of-the-current-height] (lh.filter.consensusMessagesHandler != nil ==> TermHeightOf(dyn(lh.filter.consensusMessagesHandler, *leanhelixterm.LeanHelixTerm)) == lh.state.height)
+//@   inv [O8.the-installed-term-is-wired-to-this-filter] (lh.filter.consensusMessagesHandler != nil ==> TermWired(dyn(lh.filter.consensusMessagesHandler, *leanhelixterm.LeanHelixTerm), lh.filter))
 //@   props C14 C13
 //@   requires receivedBlockWithProof != nil
 //@   requires lh.state != nil && lh.filter != nil && lh.filter.state == lh.state && lh.filter.futureCache != nil && lh.state.Contexts != nil
 //@   requires [A-NONNIL.the-configured-spi-objects-are-present] lh.config != nil && lh.config.KeyManager != nil && lh.config.BlockUtils != nil && lh.config.Membership != nil && lh.electionTrigger != nil
 //@   requires [A-KM-SIGN] SignsAs(lh.config.KeyManager, lh.config.Membership.MyMemberId())
+//@   requires [built-by-NewWorkerLoop.the-filter-carries-this-node-id] lh.filter.myMemberId == lh.config.Membership.MyMemberId()
 //@   requires lastRoundHeight <= lh.state.height && lastCommitHeight <= lh.state.height && ndelivered >= 0
 //@   inv [filter.cache] forall k int, i int :: has(lh.filter.futureCache, k) && 0 <= i && i < len(lh.filter.futureCache[k]) ==> lh.filter.futureCache[k][i].BlockHeight() == k && lh.filter.futureCache[k][i].InstanceId() == lh.filter.instanceId && lh.filter.futureCache[k][i].SenderMemberId() != lh.filter.myMemberId
 //@   modifies state.State.height, state.State.view, leanhelix.WorkerLoop.leanHelixTerm, M:S_state_HeightView:Int, ghost:lastRoundHeight, ghost:lastCommitHeight, rawmessagesfilter.RawMessageFilter.consensusMessagesHandler, rawmessagesfilter.RawMessageFilter.latestFutureBlockHeight, M:Int:Slice_Iface, ghost:ndelivered, ghost:delivered, leanhelixterm.LeanHelixTerm.termInCommittee, ghost:schedStopped, @NEWTERM
@@ -162,18 +168,22 @@ package leanhelix
 // ======================= worker loop (C12 C13 C16 C19), case-body mode =======================
 //@ func (*WorkerLoop).Run
 //@   requires [O17.the-installed-term-is-the-term-of-the-current-height] (lh.filter.consensusMessagesHandler != nil ==> TermHeightOf(dyn(lh.filter.consensusMessagesHandler, *leanhelixterm.LeanHelixTerm)) == lh.state.height)
+//@   requires [O8.the-installed-term-is-wired-to-this-filter] (lh.filter.consensusMessagesHandler != nil ==> TermWired(dyn(lh.filter.consensusMessagesHandler, *leanhelixterm.LeanHelixTerm), lh.filter))
 //@   props C12 C13 C14 C16 C19
 //@   safety iface
 //@   requires ctx != nil && lh.state != nil && lh.filter != nil && lh.filter.state == lh.state && lh.filter.futureCache != nil && lh.state.Contexts != nil
 //@   requires [A-NONNIL.the-configured-spi-objects-are-present] lh.config != nil && lh.config.KeyManager != nil && lh.config.BlockUtils != nil && lh.config.Membership != nil && lh.electionTrigger != nil
 //@   requires [A-KM-SIGN] SignsAs(lh.config.KeyManager, lh.config.Membership.MyMemberId())
+//@   requires [built-by-NewWorkerLoop.the-filter-carries-this-node-id] lh.filter.myMemberId == lh.config.Membership.MyMemberId()
 //@   requires lastRoundHeight <= lh.state.height && lastCommitHeight <= lh.state.height && ndelivered >= 0
 //@   requires [filter.cache] forall k int, i int :: has(lh.filter.futureCache, k) && 0 <= i && i < len(lh.filter.futureCache[k]) ==> lh.filter.futureCache[k][i].BlockHeight() == k && lh.filter.futureCache[k][i].InstanceId() == lh.filter.instanceId && lh.filter.futureCache[k][i].SenderMemberId() != lh.filter.myMemberId
 //@   modifies state.State.height, state.State.view, leanhelix.WorkerLoop.leanHelixTerm, M:S_state_HeightView:Int, ghost:lastRoundHeight, ghost:lastCommitHeight, rawmessagesfilter.RawMessageFilter.consensusMessagesHandler, rawmessagesfilter.RawMessageFilter.latestFutureBlockHeight, M:Int:Slice_Iface, ghost:ndelivered, ghost:delivered, leanhelixterm.LeanHelixTerm.termInCommittee, ghost:schedStopped, @NEWTERM
 //@   loop for
 //@     invariant [frame] lh.state == old(lh.state) && lh.filter == old(lh.filter) && lh.filter.state == lh.state && lh.filter.futureCache == old(lh.filter.futureCache) && lh.state.Contexts == old(lh.state.Contexts)
+//@     invariant [filter-id-frame] lh.filter.myMemberId == old(lh.filter.myMemberId)
 //@     invariant [config-frame] lh.config == old(lh.config) && lh.config.KeyManager == old(lh.config.KeyManager) && lh.config.BlockUtils == old(lh.config.BlockUtils) && lh.config.Membership == old(lh.config.Membership) && lh.electionTrigger == old(lh.electionTrigger)
 //@     invariant [O17.the-installed-term-is-the-term-of-the-current-height] (lh.filter.consensusMessagesHandler != nil ==> TermHeightOf(dyn(lh.filter.consensusMessagesHandler, *leanhelixterm.LeanHelixTerm)) == lh.state.height)
+//@     invariant [O8.the-installed-term-is-wired-to-this-filter] (lh.filter.consensusMessagesHandler != nil ==> TermWired(dyn(lh.filter.consensusMessagesHandler, *leanhelixterm.LeanHelixTerm), lh.filter))
 //@     invariant [O13.heights-stay-ordered] lastRoundHeight <= lh.state.height && lastCommitHeight <= lh.state.height && ndelivered >= 0 && lh.state.height >= old(lh.state.height)
 //@     invariant [filter.cache] forall k int, i int :: has(lh.filter.futureCache, k) && 0 <= i && i < len(lh.filter.futureCache[k]) ==> lh.filter.futureCache[k][i].BlockHeight() == k && lh.filter.futureCache[k][i].InstanceId() == lh.filter.instanceId && lh.filter.futureCache[k][i].SenderMemberId() != lh.filter.myMemberId
 //@   ensures [O16.2.the-worker-returns-only-after-observing-shutdown] done_observed(ctx)
@@ -244,6 +254,7 @@ package leanhelix
 //@ pred WorkerReady(lh *WorkerLoop, ctx context.Context) = ctx != nil && lh.state != nil && lh.filter != nil && lh.filter.state == lh.state && lh.filter.futureCache != nil && lh.state.Contexts != nil
 //@   | && lh.config != nil && lh.config.KeyManager != nil && lh.config.BlockUtils != nil && lh.config.Membership != nil && lh.electionTrigger != nil
 //@   | && (forall k int :: !has(lh.filter.futureCache, k)) && lh.filter.consensusMessagesHandler == nil
+//@   | && lh.filter.myMemberId == lh.config.Membership.MyMemberId()
 //@ func (*MainLoop).Run
 //@   props C12 C13
 //@   requires [A-NONNIL.the-consumer-configured-its-spi] m.config != nil && m.config.KeyManager != nil && m.config.BlockUtils != nil && m.config.Membership != nil && ctx != nil
@@ -283,3 +294,17 @@ package leanhelix
 //@   ensures [O14.0.the-sync-is-handed-over-as-given] result == nil ==> nsent == old(nsent) + 1 && lastSent_blockWithProof[m.mainUpdateStateChannel] != nil
 //@     | && ref(lastSent_blockWithProof[m.mainUpdateStateChannel], *blockWithProof).block == prevBlock && ref(lastSent_blockWithProof[m.mainUpdateStateChannel], *blockWithProof).prevBlockProofBytes == prevBlockProofBytes
 //@   ensures [O14.0.refused-only-when-the-context-is-done] result != nil ==> nsent == old(nsent) && done_observed(ctx)
+
+// ======================= interface contract => implementation precondition (C08 C17) =======================
+// What the height filter guarantees at a delivery (the preconditions of the interface method it calls) implies what the
+// term's own entry point requires: the message is for the height of the state the protocol logic works on and is not from
+// this node. Proved at the call inside the ghost function lemmaTheFilterDeliversWhatTheTermRequires (lemmas_verif.go).
+//@ func lemmaTheFilterDeliversWhatTheTermRequires
+//@   props C08 C17
+//@   safety iface
+//@   requires f != nil && f.state != nil && t != nil && t.ConsensusMessagesFilter != nil && t.ConsensusMessagesFilter.keyManager != nil
+//@   requires [iface.own-height] message.BlockHeight() == f.state.height
+//@   requires [iface.not-from-me] message.SenderMemberId() != f.myMemberId
+//@   requires [iface.the-installed-term-is-wired-to-this-filter] TermWired(t, f)
+//@   requires [iface.a-parsed-message] istype(message, *interfaces.PreprepareMessage) || istype(message, *interfaces.PrepareMessage) || istype(message, *interfaces.CommitMessage) || istype(message, *interfaces.ViewChangeMessage) || istype(message, *interfaces.NewViewMessage)
+//@   modifies *
